@@ -28,11 +28,12 @@ LEVEL = "exploration"
 TECHNIQUE = "model-based integration testing of two real handlers in one deterministic-scheduler world (generated roles, orders, schedules, segmentations, API call histories, restart cycles)"
 RULE = (
     "Case = (host active | equipment active, enable order, offset, socket segmentation plan, schedule seed / switch "
-    "probability, history of 1..12 ops over {request_svs, request_sv, list_svs, request_ecs, set_ecs in/out of range, "
+    "probability / parked preemptions inside enable, disable and the link-event handlers, history of 1..12 ops over {request_svs, request_sv, list_svs, request_ecs, set_ecs in/out of range, "
     "list_ecs, list_alarms, enable/disable_alarm, set/clear_alarm, subscribe_collection_event, trigger event, update value, "
     "go_online, go_offline, send_remote_command, are_you_there, restart host, restart equipment}). Non-trivial = >= 1 restart, "
     "or both sides enabled at the same virtual instant, or >= 5 calls spanning >= 3 capabilities; distinct by case hash."
 )
+HOT = ("enable", "disable", "_on_connected", "_on_disconnected", "_on_communicating", "_on_state_wait_cra")
 ASSUMPTIONS = [
     "bounded liveness: 'reach communication' is checked against the virtual-time bound T5+T6+T3+2*delay after the later enable()",
     "schedules, segmentations and histories are sampled",
@@ -66,7 +67,16 @@ def case_strategy(draw, max_ops=12):
         "first": draw(st.sampled_from(["host", "equipment"])),
         "offset": draw(st.sampled_from([0.0, 0.0, 0.3, 2.0, T5 + 0.5])),
         "seg": draw(st.lists(st.sampled_from([1, 3, 10, 14, 100, 4096]), max_size=4)),
-        "sched": draw(st.one_of(st.just({"seed": 0}), st.builds(lambda s, p: {"seed": s, "switch": p}, st.integers(1, 2**31), st.sampled_from([0.05, 0.3])))),
+        "sched": draw(
+            st.one_of(
+                st.just({"seed": 0}),
+                st.builds(lambda s, p: {"seed": s, "switch": p}, st.integers(1, 2**31), st.sampled_from([0.05, 0.3])),
+                # parked preemptions inside the lifecycle / link-event functions: the calling thread is held up there while the
+                # library's own threads run on (connect, select, S1F13 ...)
+                st.builds(lambda s, p, pp: {"seed": s, "switch": p, "pprob": pp, "hot": list(HOT)}, st.integers(1, 2**31), st.sampled_from([0.05, 0.3]), st.sampled_from([0.05, 0.2])),
+                st.builds(lambda f, k: {"seed": 0, "preempts": [[f, k]], "hot": list(HOT)}, st.sampled_from(["enable", "enable", "disable", "_on_connected"]), st.integers(1, 12)),
+            )
+        ),
         "ops": ops,
     }
 
@@ -80,7 +90,8 @@ def run_case(case, observe=None):
     V = secsgem.secs.variables
     stats = {"restarts": 0, "caps": set(), "calls": 0, "same_instant": case["offset"] == 0.0}
     sc = case.get("sched", {})
-    with simulation(sched_seed=sc.get("seed", 0), switch_prob=sc.get("switch", 0.0), system_counter=1000) as w:
+    with simulation(sched_seed=sc.get("seed", 0), switch_prob=sc.get("switch", 0.0), preempts=[tuple(x) for x in sc.get("preempts", [])],
+                    preempt_prob=sc.get("pprob", 0.0), hot=sc.get("hot", ()), system_counter=1000) as w:
         sim, net = w.sim, w.net
         seg = list(case.get("seg") or [])
         idx = [0]
@@ -393,6 +404,8 @@ def run_task(name, kw, ctx):
             cls.append("segmented")
         if case["sched"].get("seed"):
             cls.append("random-schedule")
+        if case["sched"].get("pprob") or case["sched"].get("preempts"):
+            cls.append("parked-preemptions")
         if obs.get("same_instant"):
             cls.append("simultaneous-enable")
         ctx.case(case, nt or f is not None, cls)
